@@ -11,6 +11,8 @@ ASSUMPTIONS = ['digit strings are ASCII digits (non-ASCII digit characters are o
 SEPS = ' -./'
 
 
+THREADS = True
+
 def gen(rng, tier):
     cases = []
     maxlen = 4 if tier == 'quick' else 5
